@@ -983,7 +983,12 @@ class Sym:
     def _e_Lambda(self, e, st, ctx):
         fi = getattr(e, "_func", None)
         if fi is None:
-            return Opq(f"<lambda@{getattr(e, 'lineno', 0)}>")
+            # a lambda outside any function (module-level table of predicates, class attribute, default value): the loader
+            # indexes only lambdas nested in functions, so give it a function record of its own (one per lambda node)
+            cache = self.__dict__.setdefault("_module_lambdas", {})
+            fi = cache.get(id(e))
+            if fi is None:
+                fi = cache[id(e)] = FuncInfo(name="<lambda>", qualname=f"<module>.<lambda@{getattr(e, 'lineno', 0)}:{getattr(e, 'col_offset', 0)}>", node=e, module=ctx.module)
         return FnV(fi, None, _Closure(dict(st.vars)))
 
     def _e_NamedExpr(self, e, st, ctx):
